@@ -327,3 +327,16 @@ impl Default for StepSizeSettings {
         }
     }
 }
+
+#[cfg(nuts_rs_verif)]
+impl Strategy {
+    /// Dual averaging: `Some((0, [log_step, log_step_adapted, hbar, mu], count))`;
+    /// Adam: `Some((1, [log_step, m, v, 0], t))`; fixed: `None`.
+    pub fn verif_adapt_state(&self) -> Option<(u8, [f64; 4], u64)> {
+        match self.adaptation.as_ref() {
+            None => None,
+            Some(Either::Left(a)) => Some((0, a.verif_state().0, a.verif_state().1)),
+            Some(Either::Right(a)) => Some((1, a.verif_state().0, a.verif_state().1)),
+        }
+    }
+}
